@@ -404,6 +404,79 @@ def _function_style(nn, jnp, jax, fails, tier):
       fails.append(dict(inputs=dict(transform='scan', program='cell with attributes encoder, decoder (declared in that order), broadcast params'), observed='init tree / outputs differ from the explicit loop over the plain cell', violated='scan-equals-loop'))
   except Exception as e:  # noqa
     fails.append(dict(inputs=dict(transform='scan', program='cell with attributes encoder, decoder (declared in that order), broadcast params'), observed=f'raised {e!r}'[:300], violated='scan-equals-loop'))
+  # a chain of module attributes two levels deep (Top(mid=Mid(leaf=Leaf()))) under the class transforms
+  class Leaf(nn.Module):
+    @nn.compact
+    def __call__(self, x):
+      return nn.Dense(D, name='proj')(x)
+
+  class Mid(nn.Module):
+    leaf: nn.Module
+
+    def __call__(self, x):
+      return jnp.tanh(self.leaf(x))
+
+  class Top(nn.Module):
+    mid: nn.Module
+
+    def __call__(self, x):
+      return self.mid(x) * 2.0
+
+  class TopCell(nn.Module):
+    mid: nn.Module
+
+    def __call__(self, c, x):
+      y = self.mid(x + c)
+      return c * 0.5 + y, y
+  top = Top(Mid(Leaf()))
+  tv = top.init(jax.random.key(2), xs[0])
+  cases += 1
+  try:
+    V = nn.vmap(Top, variable_axes={'params': None}, split_rngs={'params': False}, in_axes=0)
+    got = V(Mid(Leaf())).apply(tv, xs)
+    want = jnp.stack([top.apply(tv, xs[i]) for i in range(N)])
+    vi = V(Mid(Leaf())).init(jax.random.key(2), xs)
+    if jax.tree_util.tree_map(np.shape, _np(vi)) != jax.tree_util.tree_map(np.shape, _np(tv)) or not _close(_np(want), _np(got)):
+      fails.append(dict(inputs=dict(transform='vmap', program='Top(mid=Mid(leaf=Leaf())): module attributes nested two levels, broadcast params'), observed='init tree / outputs differ from calling the plain module once per index', violated='vmap-equals-per-index'))
+  except Exception as e:  # noqa
+    fails.append(dict(inputs=dict(transform='vmap', program='Top(mid=Mid(leaf=Leaf())): module attributes nested two levels, broadcast params'), observed=f'raised {e!r}'[:300], violated='vmap-equals-per-index'))
+  cases += 1
+  try:
+    S = nn.scan(TopCell, variable_broadcast='params', split_rngs={'params': False})
+    cgot, ysgot = S(Mid(Leaf())).apply(tv, c0, xs)
+    cell = TopCell(Mid(Leaf()))
+    c, ys = c0, []
+    for i in range(N):
+      c, y = cell.apply(tv, c, xs[i])
+      ys.append(y)
+    if not _close(_np((c, jnp.stack(ys))), _np((cgot, ysgot))):
+      fails.append(dict(inputs=dict(transform='scan', program='cell with module attributes nested two levels, broadcast params'), observed='outputs differ from the explicit loop', violated='scan-equals-loop'))
+  except Exception as e:  # noqa
+    fails.append(dict(inputs=dict(transform='scan', program='cell with module attributes nested two levels, broadcast params'), observed=f'raised {e!r}'[:300], violated='scan-equals-loop'))
+  # rng streams declared split give every iteration its own key - also a stream named like a broadcast collection ('params'),
+  # drawn at apply time directly or through the 'dropout' -> 'params' fallback
+  class KeyCell(nn.Module):
+    @nn.compact
+    def __call__(self, c, x):
+      w = self.param('w', lambda k: jnp.ones(()))
+      kp = jax.random.key_data(self.make_rng('params'))
+      kd = jax.random.key_data(self.make_rng('dropout'))
+      return c + w * x.sum(), (kp, kd)
+  kv = KeyCell().init({'params': jax.random.key(0), 'dropout': jax.random.key(1)}, jnp.zeros(()), xs[0])
+  for split_p, split_d, rngs in ((True, True, {'params': jax.random.key(3), 'dropout': jax.random.key(4)}), (True, False, {'params': jax.random.key(3), 'dropout': jax.random.key(4)}),
+                                 (False, True, {'params': jax.random.key(3), 'dropout': jax.random.key(4)}), (True, True, {'params': jax.random.key(3)})):
+    cases += 1
+    inp = dict(transform='scan', program='body draws make_rng(params) and make_rng(dropout) at apply time, params broadcast', split_params=split_p, split_dropout=split_d, streams=sorted(rngs))
+    try:
+      S = nn.scan(KeyCell, variable_broadcast='params', split_rngs={'params': split_p, 'dropout': split_d})
+      _, (kps, kds) = S().apply(kv, jnp.zeros(()), xs, rngs=rngs)
+      dp = len({tuple(np.asarray(k).ravel().tolist()) for k in np.asarray(kps)})
+      dd = len({tuple(np.asarray(k).ravel().tolist()) for k in np.asarray(kds)})
+      want_d = split_d if 'dropout' in rngs else split_p      # a missing stream falls back to 'params'
+      if (dp == N) != split_p or (dp == 1) == split_p or (dd == N) != want_d:
+        fails.append(dict(inputs=inp, observed=f'{dp} distinct params keys and {dd} distinct dropout keys over {N} iterations', violated='scan-rng-split'))
+    except Exception as e:  # noqa
+      fails.append(dict(inputs=inp, observed=f'raised {e!r}'[:300], violated='scan-rng-split'))
   return cases
 
 
@@ -420,7 +493,7 @@ def run(tier, seed):
       return dict(name=NAME, cases=cases, distinct=cases, failures=[], error=f'{part.__name__}: ' + traceback.format_exc()[-1500:])
   return dict(name=NAME, cases=cases, distinct=cases,
               bound='scan: params {broadcast, axis 0, axis 1} x reverse x unroll {1,2} x in/out axes {0,1} x length {1,3} x split_rngs (quick: unroll 2 only with axes 0/0) + 2 broadcast-collection programs; '
-                    'vmap: params {None, 0, 1} x in/out axes {0,1} x stats In{0,1,2} x intermediates Out{0,1,2} x split_rngs, batch 3 (quick: In{0,2} x Out{1,2}); 6 function-style / attribute-order programs',
+                    'vmap: params {None, 0, 1} x in/out axes {0,1} x stats In{0,1,2} x intermediates Out{0,1,2} x split_rngs, batch 3 (quick: In{0,2} x Out{1,2}); 6 function-style / attribute-order programs; 2 programs with module attributes nested two levels; 4 scan rng-split layouts over a stream named like the broadcast collection',
               failures=fails[:3], error=None)
 
 
